@@ -1,6 +1,7 @@
 package main
 
 import (
+	"bytes"
 	"crypto/tls"
 	"errors"
 	"fmt"
@@ -472,7 +473,26 @@ func (s *session) data(r io.Reader, status smtp.StatusCollector, sync bool) (err
 		b.mu.Unlock()
 		b.wg.Done()
 	}()
-	for dec.want < 0 || len(got) < dec.want {
+	if dec.want < 0 && dec.rsz >= 32768 {
+		// a backend that hands the reader to io.Copy (which looks for io.WriterTo first), after sniffing rsz-32768 octets with
+		// one Read: on a reader without WriteTo this is a Read loop with a 32 KiB buffer
+		if sniff := dec.rsz - 32768; sniff > 0 {
+			buf := make([]byte, sniff)
+			m, e := r.Read(buf)
+			got = append(got, buf[:m]...)
+			rerr = e
+		}
+		if rerr == nil {
+			var bb bytes.Buffer
+			_, e := io.Copy(&bb, r)
+			got = append(got, bb.Bytes()...)
+			rerr = e
+			if e == nil {
+				rerr = io.EOF
+			}
+		}
+	}
+	for (dec.want < 0 && dec.rsz < 32768) || (dec.want >= 0 && len(got) < dec.want) {
 		n := dec.rsz
 		if dec.want >= 0 && dec.want-len(got) < n {
 			n = dec.want - len(got)
